@@ -1532,37 +1532,64 @@ func c16R4(e *c16Env) {
 	}
 	// preset Authorization: exactly one send, no cache access
 	var pre []Edge
-	for _, i := range Ifs(D) {
-		cond, t, f := ifEdges(i)
-		bo, ok := cond.(*ssa.BinOp)
+	// presetTest: bo is `<originalReq>.Header.Get("Authorization") ==/!= ""`; returns +1 if it is true when preset, -1 if false when preset
+	presetTest := func(l ssa.Value) int {
+		bo, ok := l.(*ssa.BinOp)
 		if !ok || (bo.Op != token.NEQ && bo.Op != token.EQL) {
-			continue
+			return 0
 		}
 		x, y := bo.X, bo.Y
 		if s, isS := constString(y); !isS || s != "" {
 			x, y = y, x
 		}
 		if s, isS := constString(y); !isS || s != "" {
-			continue
+			return 0
 		}
-		get, isGet := x.(*ssa.Call)
-		if !isGet || CalleeName(get) != c16HdrGet {
-			continue
+		gs := e.SV.Leaves(x)
+		if len(gs) == 0 {
+			return 0
 		}
-		if k, isK := constString(get.Call.Args[1]); !isK || !strings.EqualFold(k, "Authorization") {
-			continue
-		}
-		ld, isLd := get.Call.Args[0].(*ssa.UnOp)
-		if !isLd {
-			continue
-		}
-		if fa, isFA := ld.X.(*ssa.FieldAddr); !isFA || fa.X != ssa.Value(e.orig) {
-			continue
+		for _, gl := range gs {
+			get, isGet := gl.(*ssa.Call)
+			if !isGet || CalleeName(get) != c16HdrGet {
+				return 0
+			}
+			if k, isK := constString(get.Call.Args[1]); !isK || !strings.EqualFold(k, "Authorization") {
+				return 0
+			}
+			ld, isLd := get.Call.Args[0].(*ssa.UnOp)
+			if !isLd {
+				return 0
+			}
+			fa, isFA := ld.X.(*ssa.FieldAddr)
+			if !isFA || fieldName(fa.X.Type(), fa.Field) != "net/http.Request.Header" || !e.isOrig(fa.X, e.SV) {
+				return 0
+			}
 		}
 		if bo.Op == token.NEQ {
-			pre = append(pre, t)
-		} else {
-			pre = append(pre, f)
+			return 1
+		}
+		return -1
+	}
+	for _, g := range e.SV.Funcs() {
+		for _, i := range Ifs(g) {
+			cond, t, f := ifEdges(i)
+			pol := 0
+			ls := e.SV.Leaves(cond)
+			for j, l := range ls {
+				p := presetTest(l)
+				if p == 0 || (j > 0 && p != pol) {
+					pol = 0
+					break
+				}
+				pol = p
+			}
+			switch pol {
+			case 1:
+				pre = append(pre, t)
+			case -1:
+				pre = append(pre, f)
+			}
 		}
 	}
 	if len(pre) == 0 {
@@ -1570,7 +1597,12 @@ func c16R4(e *c16Env) {
 		return
 	}
 	for _, ed := range pre {
-		mxp, mnp, _ := c16Budget(D, ed.To, w)
+		mxp, mnp := e.SV.Weights(e.SV.atBlock(ed.To), func(in ssa.Instruction) int {
+			if call, ok := in.(ssa.CallInstruction); ok && CalleeName(call) == c16HTTPDo {
+				return 1
+			}
+			return 0
+		})
 		cacheTouched := false
 		for _, call := range e.SV.Calls(func(n string) bool { return strings.HasPrefix(n, c16Cache) }) {
 			if e.SV.EdgeReach(ed, call.(ssa.Instruction), nil) {
